@@ -48,7 +48,15 @@ fn main() {
                 profile: profile().to_string(),
             };
             eprintln!("VERIF_SEED={seed} check={prop} tier={tier} profile={} workers={workers}", profile());
-            runner::drive(&check, &opts)
+            // a panic of the driver itself (generation, triage) is a harness error, reported as such
+            match std::panic::catch_unwind(std::panic::AssertUnwindSafe(|| runner::drive(&check, &opts))) {
+                Ok(code) => code,
+                Err(_) => {
+                    let site = core::panics::take().map(|p| format!("{}: {}", p.site(), p.msg)).unwrap_or_else(|| "unknown site".into());
+                    eprintln!("HARNESS-ERROR: the driver panicked at {site}");
+                    2
+                }
+            }
         }
         "worker" => {
             // worker <check> <part> <seed> <k> <W> <from> <cases> <deadline> <digests>
